@@ -419,6 +419,12 @@ def ray_bounds(ray_origins, ray_directions, bounds, buffer_dist=1e-5):
     # not sure if this is necessary, but if the ray is  axis aligned
     # this function will otherwise return zero volume bounding boxes
     # which may or may not screw up the r-tree intersection queries
-    ray_bounding += np.array([-1, -1, -1, 1, 1, 1]) * buffer_dist
+    # the two points are rounded: where floats are spaced wider than
+    # `buffer_dist` the pad has to cover that too, or a face lying in
+    # the plane the ray was clipped to is not a candidate
+    pad = buffer_dist + 8.0 * np.finfo(np.float64).eps * (
+        np.abs(ray_origins).max(axis=1) + np.abs(t).max(axis=1)
+    )
+    ray_bounding += np.array([-1, -1, -1, 1, 1, 1]) * pad.reshape((-1, 1))
 
     return ray_bounding
